@@ -635,6 +635,26 @@ class C04(Check):
                      "", "Xmr", "xmr ", " xmr", "xmr\x00", "μXMR", "uXMR", "x" * L, "µ" * (L // 2), "\x00" * L, "piconero" * (L // 8)]
         for t in den_texts + amt_texts[:40]:
             add("denom " + thex(t), "text-denom")
+        # a multi-byte character straddling EVERY byte offset up to 80 (byte-indexed slicing / truncation of text, e.g. for an error
+        # message or a length limit, panics when the cut is not a character boundary), in every text parser
+        for k in range(0, 80):
+            for ch in ("é", "€", "\U0001F600"):
+                t = "a" * k + ch * 12
+                for tt in (t, "1" * k + ch * 12):
+                    add("denom " + thex(tt), "text-char-boundary")
+                    add("amt_parse u with_suffix " + thex("1 " + tt), "text-char-boundary")
+                    add("amt_parse s with_suffix " + thex(tt + " xmr"), "text-char-boundary")
+                    add("amt_parse u xmr " + thex(tt), "text-char-boundary")
+                    add("amt_parse s piconero " + thex("-" + tt), "text-char-boundary")
+                add("addr_from_str " + thex(t), "text-char-boundary")
+                add("b58_dec " + thex(t), "text-char-boundary")
+                add("addr_from_hex " + thex(t), "text-char-boundary")
+                add("addr_from_hex " + thex("0x" + t), "text-char-boundary")
+                add("sk_str " + thex(t), "text-char-boundary")
+                add("pk_str " + thex(t), "text-char-boundary")
+                for T in ("hash", "hash8", "pid"):
+                    add("hexparse %s %s" % (T, thex(t)), "text-char-boundary")
+                    add("hexparse %s %s" % (T, thex("0x" + t)), "text-char-boundary")
         # hashing
         for n in list(range(0, 300)) + [1000, 4096, 20000]:
             add("keccak " + hx(bytes((i * 7 + n) & 0xff for i in range(n))), "bytes-keccak")
